@@ -12,7 +12,7 @@ from ..port import PortModel
 from ..facts import WORD as W
 from ..terms import C, ZERO, INF, short, is_const, Dom
 from .. import mem
-from .frame_common import FrameSetup, run_regions, REGIONS, live_heap, _slim_ob, effects, BLOCK_UNIT
+from .frame_common import FrameSetup, run_regions, REGIONS, live_heap, _slim_ob, effects, sends, request_alloc, BLOCK_UNIT
 from .automata_common import load_core, Automaton, AUTOMATA_UNIT
 
 ESP32_UNIT = 'os/esp32/daemon/lltd_esp32.c'
@@ -56,7 +56,8 @@ def frame_entry(prog, mtu_ok):
                          'faults': sum(1 for e in st.trace if e[0] == 'malloc-failed'), 'tos': repr(st.dom(('in', 'frame', 15))),
                          'op': repr(st.dom(('in', 'frame', 17))), 'malloc_sizes': [(a, repr(b)) for a, b in sizes],
                          'count_entry': repr(st.dom(('sym', 'st.see_list_count@entry', 0, (1 << 32) - 1))),
-                         'new_node_linked': any(r.startswith('heap:parseProbe') for r in retained),
+                         'new_node_linked': any(request_alloc(r) for r in retained),
+                         'sent_objs': sorted(set(str(sn.d['obj']) for sn, _c in sends(st))),
                          'new_icon_kept': 'heap:port.icon_image' in retained,
                          'entry_icon_live': 'heap:cached.icon' in live,
                          'freed_weak': sum(1 for e, _ in effects(st, 'free') if e[1] == 'SEEN')})
